@@ -73,13 +73,13 @@ Qed.
 Definition marks_case_ok (rest : list Z) : Prop :=
   exists h : list (mop * Z), rest = Z.of_nat (length h) :: flat_map enc_mop h /\ h <> [] /\ set_run (fun _ => False) h.
 
-Theorem check_marks_sound : forall l c tag pos diag r,
-  check_marks l = Some (verdict c tag pos diag, r) -> c = 0 \/ c = 1 -> c = 0 /\ r = [] /\ marks_case_ok l.
+Theorem check_marks_sound : forall l c v r,
+  check_marks l = Some (c :: v, r) -> c = 0 \/ c = 1 -> c = 0 /\ r = [] /\ marks_case_ok l.
 Proof.
-  intros l c tag pos diag r H Hc. unfold check_marks in H. pinv H. subst.
+  intros l c v r H Hc. unfold check_marks in H. pinv H. subst.
   destruct (length a =? 0)%nat eqn:EL; [rejected Ev|]. apply Nat.eqb_neq in EL.
   destruct (marks_cmp m_new a 0 0) as [bits [[idx rr]|]] eqn:EM; [rejected Ev|].
-  pose proof (verdict_code _ _ _ _ _ _ _ _ Ev) as C. unfold V_OK in C. subst c.
+  pose proof (verdict_code _ _ _ _ _ _ Ev) as C. unfold V_OK in C. subst c.
   split; [reflexivity|]. split; [reflexivity|]. exists a. split.
   - apply (plist_any_layout _ _ p_mop_layout) in E. rewrite app_nil_r in E. exact E.
   - split; [intros ->; apply EL; reflexivity|]. apply marks_cmp_None in EM. rewrite marks_history in EM.
